@@ -4,5 +4,5 @@ CONSTANTS
   DiscardedCallIsTail = FALSE
   Fuel = 8
   Universe = "wide"
-INVARIANTS RewriteSound UnrecognisedLeftAlone RecognisedIffTail LoweringFaithful FuelExact
+INVARIANTS RewriteSound UnrecognisedLeftAlone RecognisedIffTail LoweringFaithful FuelExact Emit
 CHECK_DEADLOCK FALSE
